@@ -143,6 +143,10 @@ pub enum RAct {
     Mark,
     Run { inst: Inst },
     SendSe { inst: Inst, ty: u8, pay: PayId },
+    /// A system command / system event addressed to an entity that is not (or no longer) a system: one of the
+    /// harness's plain entities.
+    RunEnt { ent: u64 },
+    SendSeEnt { ent: u64, ty: u8, pay: PayId },
     Broadcast { ty: u8, pay: PayId },
     EntityEv { ent: u64, ty: u8, pay: PayId },
     Insert { ent: u64, comp: u8, val: u32, queued: bool },
@@ -155,7 +159,7 @@ pub enum RAct {
     RespawnEnt { slot: u8 },
     ResAccess { ty: u8, how: MutHow, old: u32, new: u32, after: u32, ret_some: bool, triggers: bool },
     ResTrigger { ty: u8 },
-    Register { inst: Inst, mode: Mode, once: bool, flavour: Flavour, script: usize, bundle: Vec<RTrig> },
+    Register { inst: Inst, mode: Mode, once: bool, flavour: Flavour, script: usize, bundle: Vec<RTrig>, form: u8 },
     SpawnSys { inst: Inst, flavour: Flavour, script: usize },
     With { inst: Inst, bundle: Vec<RTrig> },
     Revoke { token: usize },
